@@ -58,6 +58,8 @@ def canon(t):
         return ("call", nm, args)
     if h == "un" and t[1] == "!" and t[2][0] == "index":
         return canon(t[2])
+    if h == "unk":
+        return ("unk", str(t[1]).split("@")[0])
     return tuple(canon(x) if isinstance(x, tuple) else x for x in t)
 
 
@@ -296,3 +298,45 @@ def r02_8(ctx, rr):
         rr.instances += 1
         ok = (hi + 1) * 256 <= (1 << width)
         rr.check(ok, "Select9:u%d-class-bound" % width, "Select9 stores %d-bit offsets for spans up to %d groups of 256 bits, but then an offset can reach %d >= 2^%d and is truncated" % (width, hi, (hi + 1) * 256 - 1, width), F.loc(arm["body"]))
+
+
+
+SIBLING_GROUPS = [
+    {"name": "ef-scan", "props": ["C04"], "labels": ["index_of", "succ_unchecked"],
+     "fns": [r"EliasFano<H, L> as traits::indexed_dict::IndexedDict>::index_of$", r"EliasFano<H, L> as traits::indexed_dict::SuccUnchecked>::succ_unchecked$"],
+     "opaque": {}},
+    {"name": "select-small", "props": ["C02"], "labels": ["SelectSmall", "SelectZeroSmall"],
+     "fns": [r"^<rank_sel::select_small::SelectSmall<2, 9, C> as traits::rank_sel::SelectUnchecked>::select_unchecked$",
+             r"^<rank_sel::select_zero_small::SelectZeroSmall<2, 9, C> as traits::rank_sel::SelectZeroUnchecked>::select_zero_unchecked$"],
+     "opaque": {"upper_rank": ("sym", "UR"), "local_rank": ("sym", "LR"), "upper_block_idx": ("sym", "UB"), "upper_rank_ones": ("sym", "URO")}},
+]
+
+
+def compare_group(ctx, rr, g, allowed):
+    F = ctx.F()
+    bodies = [F.one(p) for p in g["fns"]]
+    names = g["labels"]
+    sks = [sk_items(F, b, g["opaque"]) for b in bodies]
+    union = set().union(*sks)
+    common = set.intersection(*sks)
+    rr.instances += len(bodies)
+    for it in sorted(union - common, key=repr):
+        have = [names[i] for i, s in enumerate(sks) if it in s]
+        base_repr = repr(it[0]) if it[1] == 1 else repr(it)
+        ok = any(a["item"] == base_repr and sorted(a["only_in"]) == sorted(have) for a in allowed)
+        if ok:
+            rr.assumed += 1
+        rr.ob(ok, key="%s:%s" % (g["name"], base_repr[:100]), sample={"item": base_repr[:200], "present_in": have})
+        if not ok:
+            missing = [n for n in names if n not in have]
+            rr.violate("%s:deviant:%s:%s" % (g["name"], ",".join(sorted(have)), short_item(it)), "the sibling implementations %s disagree: the decision/arithmetic item %s is present in %s but not in %s, and the difference is not one of the confirmed ones" % (names, base_repr[:300], have, missing), bodies[names.index(have[0])].span)
+    for _ in common:
+        rr.ob(True, key="%s:common" % g["name"], nontrivial=False)
+    rr.samples.append({"group": g["name"], "common_items": len(common), "all_items": len(union)})
+
+
+@rule("R02.9", props=["C02", "C04"], floor=4, title="further sibling pairs agree up to their confirmed differences (EF index_of/succ scans; SelectSmall/SelectZeroSmall)")
+def r02_9(ctx, rr):
+    tab = load_table("sibling_groups.json")
+    for g in SIBLING_GROUPS:
+        compare_group(ctx, rr, g, tab.get(g["name"], []))
